@@ -24,6 +24,7 @@ EXPLANATION = (
     "of samples differs from the realised one), resample step = 1 / target; R15.4 the spectrogram's time origin is the "
     "source's first time. Frame-exact equality with load_recording, strict monotonicity and axis length = data length "
     "depend on np.arange / soundfile / scipy and are not decided."
+    "R15.4 also requires the caller's boundary option to reach stft unchanged (the origin rule presumes scipy's half-window extension). "
 )
 ASSUMPTIONS = ["soundfile.SoundFile.seek/read and scipy.signal.stft/resample semantics (trusted)",
                "scipy's stft time coordinates are k * (nperseg - noverlap) / fs (documented)"]
